@@ -65,10 +65,11 @@ func (w *World) execPreload(st *Step, s *Sched) *Violation {
 	w.Handles = map[int]any{}
 	var err error
 	if s != nil {
-		atree.VerifYield = func(site string, id atree.SlabID) { s.Yield(site + ":" + RegIDOf(id).String()) }
+		s.Install()
 		live := s.RunBubble(TestingT, []func(){func() { err = w.Storage.BatchPreload(ids, workers) }})
-		atree.VerifYield = nil
+		s.Uninstall()
 		w.Stats.Add("sched.worker-decisions", s.Decisions)
+		w.Stats.Add("sched.elem-yields", s.ElemYields)
 		if live != nil {
 			return w.viol("live.deadlock", "BatchPreload(%d ids, %d workers) under schedule policy %s: %v", len(ids), workers, s.policy, live)
 		}
@@ -111,13 +112,15 @@ func (w *World) execPreload(st *Step, s *Sched) *Violation {
 // schedCommit runs one commit step under the controlled scheduler.
 func schedCommit(w *World, st *Step, variant ExecVariant, r *Rng) *Violation {
 	s := NewSched(variant.Sched, r.Sub(fmt.Sprintf("sched%d", w.StepNo)))
-	atree.VerifYield = func(site string, id atree.SlabID) { s.Yield(site + ":" + RegIDOf(id).String()) }
+	s.ElemStride = variant.Elem
+	s.Install()
 	w.Ledger.Yield = func(site string, id RegID) { s.Yield("io:" + site + ":" + id.String()) }
 	var v *Violation
 	live := s.RunBubble(TestingT, []func(){func() { v = w.execGuarded(st) }})
-	atree.VerifYield = nil
+	s.Uninstall()
 	w.Ledger.Yield = nil
 	w.Stats.Add("sched.worker-decisions", s.Decisions)
+	w.Stats.Add("sched.elem-yields", s.ElemYields)
 	w.Events += s.Decisions
 	if live != nil {
 		return w.viol("live.deadlock", "commit (%s, %d workers) under schedule policy %s: %v", st.Flavour, st.Workers, s.policy, live)
@@ -158,7 +161,9 @@ func execConc(tr *Trace, cv concVariant, stats *Stats) ([]commitPoint, *Violatio
 			v = w.preloadWithDecodeFailure(&st, cv, r)
 		case st.Op == "preload" && cv.Exec.Sched != "" && !freeRunning:
 			st.Workers = cv.Exec.Workers
-			v = w.execPreload(&st, NewSched(cv.Exec.Sched, r.Sub(fmt.Sprintf("pl%d", i))))
+			ps := NewSched(cv.Exec.Sched, r.Sub(fmt.Sprintf("pl%d", i)))
+			ps.ElemStride = cv.Exec.Elem
+			v = w.execPreload(&st, ps)
 		default:
 			if st.Op == "preload" && cv.Exec.Workers > 0 {
 				st.Workers = cv.Exec.Workers
@@ -197,9 +202,10 @@ func (w *World) commitWithEncodeFailure(st *Step, cv concVariant, r *Rng) *Viola
 	g0 := runtime.NumGoroutine()
 	if cv.Exec.Sched != "" && !freeRunning {
 		s := NewSched(cv.Exec.Sched, r.Sub(fmt.Sprintf("fe%d", w.StepNo)))
-		atree.VerifYield = func(site string, id atree.SlabID) { s.Yield(site + ":" + RegIDOf(id).String()) }
+		s.ElemStride = cv.Exec.Elem
+		s.Install()
 		live := s.RunBubble(TestingT, []func(){run})
-		atree.VerifYield = nil
+		s.Uninstall()
 		w.Stats.Add("sched.worker-decisions", s.Decisions)
 		if live != nil {
 			return w.viol("live.deadlock", "commit (%s, %d workers) with a failing encoder under policy %s: %v", st.Flavour, st.Workers, s.policy, live)
@@ -260,9 +266,10 @@ func (w *World) preloadWithDecodeFailure(st *Step, cv concVariant, r *Rng) *Viol
 	run := func() { err = w.Storage.BatchPreload(ids, workers) }
 	if cv.Exec.Sched != "" && !freeRunning {
 		s := NewSched(cv.Exec.Sched, r.Sub(fmt.Sprintf("fd%d", w.StepNo)))
-		atree.VerifYield = func(site string, id atree.SlabID) { s.Yield(site + ":" + RegIDOf(id).String()) }
+		s.ElemStride = cv.Exec.Elem
+		s.Install()
 		live := s.RunBubble(TestingT, []func(){run})
-		atree.VerifYield = nil
+		s.Uninstall()
 		w.Stats.Add("sched.worker-decisions", s.Decisions)
 		if live != nil {
 			return w.viol("live.deadlock", "BatchPreload with a failing decoder or ledger read (%+v) under policy %s: %v", cv, s.policy, live)
@@ -551,7 +558,7 @@ func init() {
 				nv = 6
 			}
 			for k := 0; k < nv; k++ {
-				cv := concVariant{Exec: ExecVariant{Workers: []int{2, 3, 4, 8, 16, 64}[vr.Intn(6)], Sched: []string{"random", "random", "first", "last", "rr", "starve"}[vr.Intn(6)], Seed: vr.U64()}}
+				cv := concVariant{Exec: ExecVariant{Workers: []int{2, 3, 4, 8, 16, 64}[vr.Intn(6)], Sched: []string{"random", "random", "first", "last", "rr", "starve"}[vr.Intn(6)], Seed: vr.U64(), Elem: []int{0, 1, 1, 2, 3, 7}[vr.Intn(6)]}}
 				switch vr.Intn(5) {
 				case 0:
 					cv.FailEncode = vr.Range(1, 30)
